@@ -208,7 +208,7 @@ func (p *srcPlugin) produce(server pconnector.SourceRunStreamServer) {
 	}
 }
 
-func (p *srcPlugin) Stop(context.Context, pconnector.SourceStopRequest) (pconnector.SourceStopResponse, error) {
+func (p *srcPlugin) Stop(ctx context.Context, _ pconnector.SourceStopRequest) (pconnector.SourceStopResponse, error) {
 	p.st.mu.Lock()
 	d := p.st.stopDelayUs
 	p.st.mu.Unlock()
@@ -225,12 +225,15 @@ func (p *srcPlugin) Stop(context.Context, pconnector.SourceStopRequest) (pconnec
 	if last == p.openPos {
 		// nothing was handed out in this run: like the connector SDK, report no last position
 		// (the engine would otherwise wait for a record of the previous run)
-		return pconnector.SourceStopResponse{}, nil
+		return pconnector.SourceStopResponse{}, p.w.ctxErr(ctx)
+	}
+	if err := p.w.ctxErr(ctx); err != nil {
+		return pconnector.SourceStopResponse{}, err
 	}
 	return pconnector.SourceStopResponse{LastPosition: Pos(p.st.id, last)}, nil
 }
 
-func (p *srcPlugin) Teardown(context.Context, pconnector.SourceTeardownRequest) (pconnector.SourceTeardownResponse, error) {
+func (p *srcPlugin) Teardown(ctx context.Context, _ pconnector.SourceTeardownRequest) (pconnector.SourceTeardownResponse, error) {
 	p.finish()
 	// The engine closes the stream before it tears the plugin down, so the goroutine that
 	// receives the acks ends now; wait for it so that every ack it received is in the log
@@ -245,7 +248,7 @@ func (p *srcPlugin) Teardown(context.Context, pconnector.SourceTeardownRequest) 
 		}
 	}
 	p.w.Log(Ev{K: "td", C: p.st.id})
-	return pconnector.SourceTeardownResponse{}, nil
+	return pconnector.SourceTeardownResponse{}, p.w.ctxErr(ctx)
 }
 
 func (p *srcPlugin) LifecycleOnCreated(context.Context, pconnector.SourceLifecycleOnCreatedRequest) (pconnector.SourceLifecycleOnCreatedResponse, error) {
@@ -467,11 +470,11 @@ func (p *dstPlugin) verdict() (ok bool, alive bool) {
 	return true, true // released
 }
 
-func (p *dstPlugin) Stop(context.Context, pconnector.DestinationStopRequest) (pconnector.DestinationStopResponse, error) {
-	return pconnector.DestinationStopResponse{}, nil
+func (p *dstPlugin) Stop(ctx context.Context, _ pconnector.DestinationStopRequest) (pconnector.DestinationStopResponse, error) {
+	return pconnector.DestinationStopResponse{}, p.w.ctxErr(ctx)
 }
 
-func (p *dstPlugin) Teardown(context.Context, pconnector.DestinationTeardownRequest) (pconnector.DestinationTeardownResponse, error) {
+func (p *dstPlugin) Teardown(ctx context.Context, _ pconnector.DestinationTeardownRequest) (pconnector.DestinationTeardownResponse, error) {
 	p.finish()
 	// the engine closed the stream before: wait for the receiving goroutine so that whatever it
 	// received is in the log before the teardown is
@@ -485,7 +488,7 @@ func (p *dstPlugin) Teardown(context.Context, pconnector.DestinationTeardownRequ
 		}
 	}
 	p.w.Log(Ev{K: "td", C: p.st.id})
-	return pconnector.DestinationTeardownResponse{}, nil
+	return pconnector.DestinationTeardownResponse{}, p.w.ctxErr(ctx)
 }
 
 func (p *dstPlugin) LifecycleOnCreated(context.Context, pconnector.DestinationLifecycleOnCreatedRequest) (pconnector.DestinationLifecycleOnCreatedResponse, error) {
